@@ -260,7 +260,14 @@ func (m *Migrator) runStager(
 		logger.Info("Stager already completed in a previous run, skipping")
 		return nil, true, nil
 	}
-	m.stagerProgress = max(oldestBlockKept, m.stagerProgress)
+	// Always (re)stage the whole keeper window. A persisted stager checkpoint can be stale: it is
+	// only replaced or deleted when a later run returns, so a run that resumed from it, restored the
+	// history buckets, wiped the scratch namespace and then died before the runner recorded the
+	// migration as applied leaves the checkpoint pointing above blocks whose staged copy is gone.
+	// Resuming from it would stage only [checkpoint, chainHeight], and setupBeforeRestorer would then
+	// wipe the live history of [oldestBlockKept, checkpoint) for good. Re-staging is idempotent:
+	// an entry missing from the live buckets keeps its staged copy (see copyValue).
+	m.stagerProgress = oldestBlockKept
 
 	// Progress is reported relative to the keeper window [oldestBlockKept,
 	// chainHeight] — passing absolute block numbers would start the readout
